@@ -144,6 +144,18 @@ def gen_history(rng, cfg=None):
             m = rng.choice(manifests)
             m['entries'] = m['entries'] + [{'tag': 'DATA', 'path': 'vanished-%d' % rng.randrange(9), 'size': 3,
                                             'sums': {'MD5': '0' * 32}}]
+    # targeted prior state: an entry that is stale in its SIZE only (digests match the content), often for a file that
+    # is empty (where st_size says nothing)
+    if prior != 'absent' and manifests and rng.random() < cfg.get('p_size_only_stale', 0.1):
+        cands = [(m, e) for m in manifests for e in m['entries']
+                 if e.get('tag') in ('DATA', 'EBUILD', 'MISC', 'AUX') and 'size' not in e and 'raw' not in e]
+        if cands:
+            m, e = rng.choice(cands)
+            e['dsize'] = rng.choice([1, 3, 100])
+            if rng.random() < 0.6:
+                fp = os.path.normpath(os.path.join(os.path.dirname(m['p']), e['path']))
+                tree = [dict({'p': t['p'], 'k': 'file', 'c': ''}, **({'mt': t['mt']} if 'mt' in t else {}))
+                        if t.get('p') == fp and t.get('k', 'file') == 'file' else t for t in tree]
     # targeted prior state: one file listed in a sub-Manifest AND in a Manifest above it, the file
     # edited in place (same size), and only one of the two Manifests refreshed afterwards
     special_hashes = None
